@@ -8,13 +8,657 @@ cell with psi of TLC's grid; for npix = 256 (toast_tile_get_coords) the real arr
 centres (the theorem's right-hand side at K = 8) for all tiles to depth 2 and sampled deeper tiles, and with the
 centre of the real tile constructed eight levels deeper; the latitude-range and containment clauses are checked
 on the real arrays.
+
+The tile that ARRIVES (spec/LeafDelivery.tla): the filtered post-order generator (tile filter and / or sub-pyramid)
+delivers exactly the canonical lattice tiles of the accepted leaf positions (T_LeafTiles), and a producer / bounded
+queue / feeder / worker machine over those values keeps ArrivedIsItsTile and ArrivedGridIsCentres whatever the lag
+between put() and the feeder's serialisation; TLC emits the leaf tables and every reachable lag vector.  Binding:
+the real Pyramid.new_toast_filtered(...)[.subpyramid(apex)].visit_leaves(cb, parallel=2) runs (a) on lib/simmp's
+deterministic scheduler, driven through TLC's lag vectors (items serialised at flush time, as the real feeder does)
+and adversarial policies, and (b) with real worker processes; the callback computes the grid IN THE WORKER and the
+digest (corners, the 2^K grid, a 16 x 16 sub-lattice of the 256 grid, latitude range) is compared with TLC's table.
+
+The environment: one child interpreter per configuration of the process environment (every variable the library's
+source reads from os.environ, set to "1"; and a process in which toasty._libtoasty cannot be imported) recomputes a
+stratified subset (both diagonal orientations, both coordinate systems, levels 1-3, npix 2..256) which is compared
+with TLC's tables; a clean ImportError is recorded and not judged.
 """
+import collections
+import json
+import os
+import pickle
+import random
+import re
+import subprocess
+import sys
+
 import numpy as np
 
-from lib import repo, lattice
+from lib import repo, lattice, simmp, simrun, tla, guard
 from checks import toastlat
 
 TOL = 1e-9
+SAMPLE_STEP = 17          # rows / columns 0, 17, ..., 255 of the 256 x 256 grid: a 16 x 16 sub-lattice
+KEY_ARRIVES = "C05:visit_leaves-parallel:pixel-centres"
+KEY_ENV = "C05:environment:pixel-centres"
+
+
+# ------------------------------------------------------------------------------------------------
+# the tile that arrives at the callback of a parallel leaf visit (spec/LeafDelivery.tla)
+# ------------------------------------------------------------------------------------------------
+
+LEAF_CFG = """SPECIFICATION DSpec
+CONSTANTS
+ R = %(R)d
+ MaxDepth = %(D)d
+ K = %(K)d
+ Cap = %(cap)d
+ Configs <- MCConfigs
+INVARIANT ArrivedIsItsTile
+INVARIANT ArrivedGridIsCentres
+INVARIANT LagBounded
+INVARIANT Emit
+CHECK_DEADLOCK FALSE
+"""
+
+L1 = [(1, 0, 0), (1, 1, 0), (1, 0, 1), (1, 1, 1)]
+
+
+def _kids(p):
+    n, x, y = p
+    return [(n + 1, 2 * x, 2 * y), (n + 1, 2 * x + 1, 2 * y), (n + 1, 2 * x, 2 * y + 1), (n + 1, 2 * x + 1, 2 * y + 1)]
+
+
+def _up(p, m):
+    return (m, p[1] >> (p[0] - m), p[2] >> (p[0] - m))
+
+
+def _reached_leaves(conf):
+    """Input selection only (sizes of the configurations handed to TLC; TLC's own table is what is compared)."""
+    d, apex = conf["depth"], conf["apex"]
+    out = []
+    for y in range(2 ** d):
+        for x in range(2 ** d):
+            p = (d, x, y)
+            if all((m > apex[0] or _up(p, m) == _up(apex, m)) and _up(p, m) in conf["acc"] for m in range(1, d + 1)):
+                out.append(p)
+    return out
+
+
+def _all_positions(depth):
+    return {(n, x, y) for n in range(1, depth + 1) for x in range(2 ** n) for y in range(2 ** n)}
+
+
+def _random_acc(rng, depth, keep):
+    acc = set()
+
+    def rec(p):
+        acc.add(p)
+        if p[0] < depth:
+            ks = [k for k in _kids(p) if rng.random() < keep] or [rng.choice(_kids(p))]
+            for k in ks:
+                rec(k)
+    tops = [t for t in L1 if rng.random() < 0.75]
+    if len(tops) < 2:
+        tops = rng.sample(L1, 2)
+    for t in tops:
+        rec(t)
+    # positions the filter would accept but the walk never reaches (their parent is rejected)
+    for _ in range(3):
+        n = rng.randint(2, depth)
+        acc.add((n, rng.randrange(2 ** n), rng.randrange(2 ** n)))
+    return acc
+
+
+def _pick_config(ctx, rng, depth, keep, apex_level, lo, hi, **kw):
+    for _ in range(500):
+        acc = _random_acc(rng, depth, keep) if keep is not None else _all_positions(depth)
+        conf = dict(depth=depth, acc=acc, apex=(0, 0, 0), user=keep is not None, **kw)
+        if apex_level:
+            cands = sorted(p for p in acc if p[0] == apex_level and _reached_leaves(dict(conf, depth=apex_level)).count(p))
+            if not cands:
+                continue
+            conf["apex"] = rng.choice(cands)
+        ls = _reached_leaves(conf)
+        if lo <= len(ls) <= hi and len({_up(p, depth - 1) for p in ls}) >= 2:
+            return conf
+    ctx.machinery("could not draw a filtered pyramid with %d..%d leaves in at least two sibling groups" % (lo, hi))
+
+
+def leaf_configs(ctx, rng):
+    """Filtered pyramids (tile filter and / or sub-pyramid): the inputs handed to TLC.  `lags`: TLC enumerates the lag vectors
+    of the dispatch; `reads`: the tile filter looks at the tile's geometry through the library's own consumers; `user`: a
+    tile filter is given (otherwise the sub-pyramid's position filter is the only one)."""
+    q = ctx.quick
+    out = []
+    for i in range(1 if q else 3):
+        out.append(_pick_config(ctx, rng, 2, 0.6, 0, 4, 7, lags=True, reads=False))
+        out.append(_pick_config(ctx, rng, 3, 0.5, 1, 4, 6 if q else 7, lags=True, reads=True))
+        out.append(_pick_config(ctx, rng, 3, None, 1, 16, 16, lags=False, reads=False))
+        out.append(_pick_config(ctx, rng, 3, 0.7, 0, 8, 24, lags=False, reads=(i % 2 == 1)))
+    if not q:
+        out.append(_pick_config(ctx, rng, 3, 0.8, 1, 8, 8, lags=True, reads=False))
+    for i, c in enumerate(out):
+        c["csi"] = i % 2
+    return out
+
+
+def leaf_mc_module(configs):
+    recs = [{"depth": c["depth"], "acc": set(c["acc"]), "apex": tuple(c["apex"]), "lags": bool(c["lags"])} for c in configs]
+    defs = [("MCConfigs", tla.lit(recs)),
+            "ASSUME T_LeafTiles",
+            "LeafTable == [k \\in DOMAIN Configs |-> [i \\in DOMAIN LS[k] |-> LET t == LS[k][i] g == Sub(t.c[1], t.c[2], t.c[3], t.c[4], t.inc, K) IN"
+            "   [pos |-> t.pos, c |-> <<t.c[1].pt, t.c[2].pt, t.c[3].pt, t.c[4].pt>>, inc |-> t.inc,"
+            "    grid |-> [r \\in 1..(2^K) |-> [c \\in 1..(2^K) |-> g[<<r - 1, c - 1>>].pt]]]]]",
+            "ASSUME JsonSerialize(IOEnv.OUT, [R |-> R, K |-> K, leaves |-> LeafTable])",
+            "Emit == Delivered => PrintT(<<\"LAG\", ToJson([cfg |-> cfg, lag |-> lag])>>)"]
+    return tla.module("MCLeaf", ["LeafDelivery", "Json", "IOUtils", "SequencesExt"], defs)
+
+
+def run_leaf_tlc(ctx, configs, R, D, K, cap):
+    """-> (tables: per configuration {pos: entry} in dispatch order, lag vectors per configuration index)."""
+    outp = os.path.join(ctx.scratch, "leaf-%d-%d-%d.json" % (R, D, K))
+    r = ctx.tlc("MCLeaf", extra={"MCLeaf.tla": leaf_mc_module(configs)}, cfg_text=LEAF_CFG % dict(R=R, D=D, K=K, cap=cap),
+                env={"OUT": outp}, workers=4, timeout=1800)
+    raw = json.load(open(outp))
+    tables = []
+    for k, conf in enumerate(configs):
+        tab = collections.OrderedDict()
+        for e in raw["leaves"][k]:
+            tab[tuple(e["pos"])] = {"pos": tuple(e["pos"]), "c": [tuple(p) for p in e["c"]], "inc": e["inc"], "grid": e["grid"]}
+        if sorted(tab) != sorted(_reached_leaves(conf)):
+            ctx.machinery("the harness's reading of configuration %d (leaves %s) differs from TLC's leaf table (%s)" % (k, _reached_leaves(conf), list(tab)))
+        tables.append(tab)
+    lags = collections.defaultdict(list)
+    for rec in r.json_lines("LAG"):
+        lags[rec["cfg"] - 1].append(tuple(rec["lag"]))
+    for k in lags:
+        lags[k] = sorted(set(lags[k]))
+    return tables, lags
+
+
+class _SnapPipe(collections.deque):
+    """The pipe of lib/simmp's fake queue, except that what goes in is what the real feeder thread writes: the item's pickle,
+    taken when the feeder flushes it.  The worker receives a copy in the state the item had at that moment."""
+    made = 0
+
+    def append(self, item):
+        _SnapPipe.made += 1
+        collections.deque.append(self, pickle.loads(pickle.dumps(item)))
+
+
+class _SnapQueue(simmp.FakeQueue):
+    def __init__(self, maxsize=0):
+        simmp.FakeQueue.__init__(self, maxsize)
+        self.pipe = _SnapPipe()
+
+
+def _make_pyramid(mods, conf, cs, cons):
+    acc = conf["acc"]
+
+    def flt(tile):
+        S = simmp.S
+        if S is not None and S.me() is not None:
+            simmp.cb_sync("filter", tuple(tile.pos))     # the generator is advancing: a point at which the feeder may run
+        if conf["reads"]:
+            toastlat.hand_to_consumers(tile, cons)
+        return tuple(tile.pos) in acc
+    if conf["user"]:
+        p = mods["Pyramid"].new_toast_filtered(conf["depth"], flt, coordsys=cs)
+    else:
+        p = mods["Pyramid"].new_toast(conf["depth"], coordsys=cs)
+    if conf["apex"][0] > 0:
+        p = p.subpyramid(mods["Pos"](*conf["apex"]))
+    return p
+
+
+def _arrival_digest(mods, pos, tile, K):
+    """Runs in the worker: the grid of the tile that arrived, as the worker computes it."""
+    d = {"pos": [int(v) for v in pos]}
+    try:
+        d["tpos"] = [int(v) for v in tile.pos]
+        d["corners"] = [[float(p[0]), float(p[1])] for p in tile.corners]
+        lons, lats = mods["toast"].toast_tile_get_coords(tile)
+        d["shape"] = [int(v) for v in lons.shape]
+        d["lon"] = np.asarray(lons, dtype=float)[::SAMPLE_STEP, ::SAMPLE_STEP].tolist()
+        d["lat"] = np.asarray(lats, dtype=float)[::SAMPLE_STEP, ::SAMPLE_STEP].tolist()
+        d["latmin"], d["latmax"] = float(np.min(lats)), float(np.max(lats))
+        c = tile.corners
+        sl, sb = mods["subsample"](c[0], c[1], c[2], c[3], 2 ** K, tile.increasing)
+        d["slon"], d["slat"] = np.asarray(sl, dtype=float).tolist(), np.asarray(sb, dtype=float).tolist()
+    except Exception as e:  # noqa
+        d["error"] = repr(e)
+    return d
+
+
+def judge_arrivals(ctx, route, csname, psi, table, R, K, arrivals, rep, worst, gcache):
+    """Every tile that arrived: the grid the worker computed from it is the grid of the position it was delivered for."""
+    nbad = 0
+    for d in arrivals:
+        pos = tuple(d["pos"])
+        n, x, y = pos
+        ctx.count()
+        e = table.get(pos)
+        if "error" in d:
+            nbad += bool(ctx.violation(KEY_ARRIVES, "tile %s delivered to a worker (%s, %s): computing its pixel grid there raised %s" % (pos, route, csname, d["error"]), rep))
+            continue
+        if tuple(d["tpos"]) != pos:
+            nbad += bool(ctx.violation(KEY_ARRIVES, "position %s was delivered to a worker with the tile of position %s (%s, %s)" % (pos, tuple(d["tpos"]), route, csname), rep))
+            continue
+        if d["shape"] != [256, 256]:
+            nbad += bool(ctx.violation("C05:get_coords:shape", "toast_tile_get_coords(%s) in a worker returns arrays of shape %s" % (pos, d["shape"]), rep))
+            continue
+        cc = np.array(d["corners"])
+        cerr = float(np.abs(lattice.lonlat_to_vec(cc[:, 0], cc[:, 1]) - (np.array([psi.vec(p[0], p[1], R) for p in e["c"]]) if e else np.array(psi.corners(n, x, y)))).max())
+        gk = (csname, pos)
+        if gk not in gcache:
+            gcache[gk] = psi.grid(n, x, y, 8)[::SAMPLE_STEP, ::SAMPLE_STEP]
+        gerr = float(np.abs(lattice.lonlat_to_vec(np.array(d["lon"]), np.array(d["lat"])) - gcache[gk]).max())
+        sexp = np.array([[psi.vec(p[0], p[1], R) for p in row] for row in e["grid"]]) if e else psi.grid(n, x, y, K)
+        serr = float(np.abs(lattice.lonlat_to_vec(np.array(d["slon"]), np.array(d["slat"])) - sexp).max())
+        worst["arrived"] = max(worst["arrived"], gerr, serr)
+        if e:
+            ctx.trace_ok()
+        if max(gerr, serr) > TOL:
+            nbad += bool(ctx.violation(KEY_ARRIVES, "tile %s delivered to a worker (%s, %s): the pixel grid computed there is up to %.2e away from the centres of the level-%d tiles "
+                                       "(npix = %d: %.2e); the corners that arrived are %.2e away from the tile's corners" % (pos, route, csname, gerr, n + 8, 2 ** K, serr, cerr), rep))
+            continue
+        exc = max(d["latmax"] - float(cc[:, 1].max()), float(cc[:, 1].min()) - d["latmin"], 0.0)
+        worst["lat-excess"] = max(worst["lat-excess"], exc)
+        if exc > 1e-12:
+            nbad += bool(ctx.violation("C05:latitude-range", "tile %s delivered to a worker (%s, %s): pixel latitudes leave the corners' latitude range by %.2e rad" % (pos, route, csname, exc), rep))
+    return nbad
+
+
+def lag_controller(rng, want):
+    """Schedule policy realising one of TLC's lag vectors: the feeder serialises item i exactly when the generator is `want[i]`
+    leaves ahead of it; workers receive whatever is in the pipe as soon as they can; time-outs and idle polling last."""
+    box = {"S": None}
+    achieved = []
+
+    def choose(en):
+        S = box["S"]
+        q = S.queues.get("q1") if S is not None else None
+        due, head, produced = False, 0, 0
+        if q is not None:
+            a = S.actors.get("main")
+            mpend = a["pending"][0] if (a is not None and a["state"] == "waiting" and a["pending"]) else ()
+            nbuf = len(q.buf.get("main", ()))
+            head = q.nput - nbuf + 1
+            produced = q.nput + (1 if (mpend and mpend[0] == "put") else 0)
+            due = nbuf > 0 and (head > len(want) or produced - head >= want[head - 1])
+        ranks = []
+        for actor, op, outc in en:
+            if actor.startswith("feeder:"):
+                r = (0 if due else 3) if outc == "flush" else 2
+            elif actor == "main" or actor.startswith("main/"):
+                r = 4 if outc in simmp.TIMEOUT_OUTCOMES else 2
+            elif op[0] == "start":
+                r = 1
+            elif outc in simmp.TIMEOUT_OUTCOMES:
+                r = 4
+            else:
+                r = 1 if (q is not None and len(q.pipe) > 0) or op[0] not in ("is_set", "rlock", "poll") else 4
+            ranks.append(r)
+        best = min(ranks)
+        i = rng.choice([j for j, r in enumerate(ranks) if r == best])
+        if en[i][0].startswith("feeder:") and en[i][2] == "flush":
+            achieved.append(produced - head)
+        return i
+    choose.bind = lambda S: box.__setitem__("S", S)
+    choose.achieved = achieved
+    return choose
+
+
+def sim_visit(mods, conf, cs, cons, choose, K):
+    """The real visit_leaves(parallel=2) of the configuration's pyramid on the deterministic scheduler."""
+    arrivals = []
+
+    def cb(pos, tile):
+        arrivals.append(_arrival_digest(mods, pos, tile, K))
+    pyr = _make_pyramid(mods, conf, cs, cons)
+
+    def main():
+        import multiprocessing as mp
+        mp.Queue = _SnapQueue        # restored by simmp.installed() on exit
+        pyr.visit_leaves(cb, parallel=2)
+    made0 = _SnapPipe.made
+    out = simrun.run(main, choose)
+    return out, arrivals, _SnapPipe.made - made0
+
+
+def real_visit(ctx, mods, conf, cs, cons, K):
+    """The same with real worker processes: every callback appends its digest to a per-process file."""
+    d = ctx.mkdtemp("leafreal")
+
+    def cb(pos, tile):
+        rec = _arrival_digest(mods, pos, tile, K)
+        with open(os.path.join(d, "log-%d" % os.getpid()), "a") as f:
+            f.write(json.dumps(rec) + "\n")
+    pyr = _make_pyramid(mods, conf, cs, cons)
+
+    def body():
+        with simrun.quiet():
+            pyr.visit_leaves(cb, parallel=2)
+        return True
+    kind, val = guard.run_guarded(body, 180)
+    arrivals = []
+    for fn in sorted(os.listdir(d)):
+        for line in open(os.path.join(d, fn)):
+            arrivals.append(json.loads(line))
+    return kind, val, arrivals
+
+
+def check_arrivals(ctx, mods, tabs0, rng, worst, cons):
+    """Routes (a) and (b) of the module docstring for the tile that arrives."""
+    q = ctx.quick
+    configs = leaf_configs(ctx, rng)
+    R, D, K = (5, 3, 1) if q else (6, 3, 2)
+    tables, lags = run_leaf_tlc(ctx, configs, R, D, K, 4)
+    css = toastlat.coordsystems()
+    psis = {name: toastlat.psi_for(tabs0, name) for name, _ in css}
+    gcache = {}
+    setdiff = []
+    stats = {"lag_vectors_of_tlc": {}, "lag_vectors_run": 0, "lag_vectors_realised": 0, "policy_runs": 0, "real_process_runs": 0, "arrivals": 0, "snapshots": 0}
+
+    def after_run(conf, k, csname, route, arrivals, status):
+        got = [tuple(a["pos"]) for a in arrivals]
+        if status != "returned" or sorted(got) != sorted(tables[k]):
+            setdiff.append("configuration %d (%s, %s): visit_leaves %s and delivered %d of the %d leaves of TLC's table" % (k, route, csname, status, len(set(got) & set(tables[k])), len(tables[k])))
+        stats["arrivals"] += len(arrivals)
+
+    for k, conf in enumerate(configs):
+        csname, cs = css[conf["csi"]]
+        psi = psis[csname]
+        rep = {"depth": conf["depth"], "accept": sorted(conf["acc"]) if conf["user"] else None, "apex": conf["apex"], "cs": csname, "filter_reads_geometry": conf["reads"], "parallel": 2}
+        runs = []
+        if conf["lags"]:
+            vs = lags.get(k, [])
+            stats["lag_vectors_of_tlc"][str(k)] = len(vs)
+            if not vs:
+                ctx.machinery("TLC emitted no lag vector for configuration %d" % k)
+            by_sum = sorted(vs, key=lambda v: (sum(v), v))
+            pick = [by_sum[0], by_sum[-1]] + rng.sample(vs, min(len(vs), 3 if q else 40))
+            seen = set()
+            for v in pick:
+                if v not in seen:
+                    seen.add(v)
+                    runs.append(("lag", v))
+        for pol in (["starve-feeder"] if q else ["starve-feeder", "random", "workers-last", "main-first", "eager-timeout"]):
+            runs.append(("policy", pol))
+        if not conf["lags"]:
+            runs.append(("policy", "random"))
+        for kind, what in runs:
+            if kind == "lag":
+                choose = lag_controller(rng, what)
+                label = "scheduler, feeder lags %s" % (list(what),)
+            else:
+                choose = simrun.POLICIES[what](rng)
+                label = "scheduler, policy %s" % what
+            out, arrivals, nsnap = sim_visit(mods, conf, cs, cons, choose, K)
+            stats["snapshots"] += nsnap
+            if kind == "lag":
+                stats["lag_vectors_run"] += 1
+                stats["lag_vectors_realised"] += int(tuple(choose.achieved) == tuple(what))
+            else:
+                stats["policy_runs"] += 1
+            after_run(conf, k, csname, label, arrivals, out.status if out.exc is None else "raised %r" % (out.exc,))
+            judge_arrivals(ctx, label, csname, psi, tables[k], R, K, arrivals, dict(rep, schedule=[kind, list(what) if kind == "lag" else what]), worst, gcache)
+            ctx.distinct(("arrives", k, csname, kind, what))
+        if not conf["lags"]:
+            for _ in range(1 if q else 4):
+                kind, val, arrivals = real_visit(ctx, mods, conf, cs, cons, K)
+                stats["real_process_runs"] += 1
+                after_run(conf, k, csname, "real processes", arrivals, "returned" if kind == "ok" else "%s %s" % (kind, val))
+                judge_arrivals(ctx, "real processes", csname, psi, tables[k], R, K, arrivals, dict(rep, schedule="real processes"), worst, gcache)
+                ctx.distinct(("arrives-real", k, csname))
+    if setdiff:
+        # which leaves are delivered, and that the visit ends, are C03's / C13's sentences
+        ctx.drift("parallel leaf visit of a filtered pyramid: " + "; ".join(setdiff[:3]))
+    if stats["lag_vectors_run"] and stats["lag_vectors_realised"] * 2 < stats["lag_vectors_run"]:
+        ctx.drift("only %d of %d of TLC's feeder-lag vectors could be realised on the real dispatch loop (queue capacity or step structure differ from LeafDelivery)" % (stats["lag_vectors_realised"], stats["lag_vectors_run"]))
+    ctx.note("arrivals", stats)
+    k0 = next(k for k, c in enumerate(configs) if c["lags"])
+    ctx.sample({"filtered_pyramid": {"depth": configs[k0]["depth"], "apex": list(configs[k0]["apex"]), "accept": sorted(configs[k0]["acc"])},
+                "leaves_in_dispatch_order": [list(p) for p in tables[k0]], "lag_vectors": len(lags.get(k0, [])), "example_lag_vector": list(lags[k0][len(lags[k0]) // 2])}, force=True)
+
+
+# ------------------------------------------------------------------------------------------------
+# the process environment / which implementation of subsample is active
+# ------------------------------------------------------------------------------------------------
+
+_ENV_PATTERNS = [r"environ\.get\(\s*['\"]([A-Za-z_]\w*)['\"]", r"environ\[\s*['\"]([A-Za-z_]\w*)['\"]\s*\]", r"getenv\(\s*['\"]([A-Za-z_]\w*)['\"]",
+                 r"['\"]([A-Za-z_]\w*)['\"]\s+(?:not\s+)?in\s+(?:os\.)?environ", r"environ\.setdefault\(\s*['\"]([A-Za-z_]\w*)['\"]", r"environ\.pop\(\s*['\"]([A-Za-z_]\w*)['\"]"]
+
+
+def env_names(repo_dir):
+    """Names of the environment variables the library's source reads (string literals next to os.environ / getenv)."""
+    names = {}
+    top = os.path.join(repo_dir, "toasty")
+    for dp, dns, fns in os.walk(top):
+        dns[:] = sorted(d for d in dns if d != "tests")
+        for fn in sorted(fns):
+            if not fn.endswith((".py", ".pyx")):
+                continue
+            try:
+                text = open(os.path.join(dp, fn), errors="replace").read()
+            except OSError:
+                continue
+            for pat in _ENV_PATTERNS:
+                for m in re.finditer(pat, text):
+                    names.setdefault(m.group(1), os.path.relpath(os.path.join(dp, fn), repo_dir))
+    return names
+
+
+def grid_index(npix):
+    return list(range(npix)) if npix <= 16 else list(range(0, npix, npix // 16)) + [npix - 1]
+
+
+_CHILD_SRC = r'''
+import json, os, sys
+repo_dir, so_path, noext, out_npy, out_json, cases_json = sys.argv[1:7]
+st = {"status": "ok", "errors": [], "impl": None}
+
+
+def finish():
+    with open(out_json, "w") as f:
+        json.dump(st, f)
+    sys.exit(0)
+
+
+sys.path.insert(0, repo_dir)
+import numpy as np
+try:
+    import toasty
+    if not os.path.abspath(toasty.__file__).startswith(os.path.abspath(repo_dir)):
+        st["status"] = "wrong-tree"
+        finish()
+    if noext == "1":
+        sys.modules["toasty._libtoasty"] = None
+    elif so_path and os.path.dirname(os.path.abspath(so_path)) != os.path.join(os.path.abspath(repo_dir), "toasty"):
+        import importlib.machinery, importlib.util
+        loader = importlib.machinery.ExtensionFileLoader("toasty._libtoasty", so_path)
+        spec = importlib.util.spec_from_loader("toasty._libtoasty", loader)
+        mod = importlib.util.module_from_spec(spec)
+        loader.exec_module(mod)
+        sys.modules["toasty._libtoasty"] = mod
+        toasty._libtoasty = mod
+    from toasty import toast
+    from toasty.pyramid import Pos
+except ImportError as e:
+    st["status"] = "import-error"
+    st["detail"] = repr(e)
+    finish()
+
+
+def grid_index(npix):
+    return list(range(npix)) if npix <= 16 else list(range(0, npix, npix // 16)) + [npix - 1]
+
+
+sub = getattr(toast, "subsample", None)
+st["impl"] = "%s.%s" % (getattr(sub, "__module__", None), getattr(sub, "__name__", None)) if sub is not None else None
+out = []
+for ci, (csname, n, x, y) in enumerate(json.load(open(cases_json))):
+    cs = toast.ToastCoordinateSystem.PLANETARY if csname == "planetary" else toast.ToastCoordinateSystem.ASTRONOMICAL
+    tile = None
+    try:
+        tile = toast.create_single_tile(Pos(n, x, y), coordsys=cs)
+    except Exception as e:
+        st["errors"].append([ci, 0, repr(e)])
+    for k in range(1, 9):
+        npix = 2 ** k
+        idx = np.array(grid_index(npix))
+        m = len(idx)
+        blk = np.full(2 * m * m + (4 if k == 8 else 0), np.nan)
+        try:
+            if tile is not None and (k == 8 or sub is not None):
+                if k == 8:
+                    lons, lats = toast.toast_tile_get_coords(tile)
+                else:
+                    c = tile.corners
+                    lons, lats = sub(c[0], c[1], c[2], c[3], npix, tile.increasing)
+                lons, lats = np.asarray(lons, dtype=float), np.asarray(lats, dtype=float)
+                if lons.shape != (npix, npix) or lats.shape != (npix, npix):
+                    st["errors"].append([ci, k, "shape %s" % (lons.shape,)])
+                else:
+                    blk[:m * m] = lons[np.ix_(idx, idx)].ravel()
+                    blk[m * m:2 * m * m] = lats[np.ix_(idx, idx)].ravel()
+                    if k == 8:
+                        clat = [float(p[1]) for p in tile.corners]
+                        blk[2 * m * m:] = [lats.min(), lats.max(), min(clat), max(clat)]
+        except Exception as e:
+            st["errors"].append([ci, k, repr(e)])
+        out.append(blk)
+np.save(out_npy, np.concatenate(out))
+finish()
+'''
+
+
+def env_cases(rng):
+    """Stratified: every level-1 tile, and at levels 2 and 3 one tile per level-1 quadrant (both diagonal orientations), in both
+    coordinate systems."""
+    cases = []
+    for csname in ("astronomical", "planetary"):
+        cases += [(csname,) + t for t in L1]
+        for n in (2, 3):
+            h = 2 ** (n - 1)
+            for (_one, qx, qy) in L1:
+                cases.append((csname, n, qx * h + rng.randrange(h), qy * h + rng.randrange(h)))
+    return cases
+
+
+def launch_env_children(ctx, rng):
+    """One child interpreter per configuration; they run while TLC and the other routes do."""
+    from lib.core import REPO
+    d = ctx.mkdtemp("env")
+    script = os.path.join(d, "child.py")
+    with open(script, "w") as f:
+        f.write(_CHILD_SRC)
+    cases = env_cases(rng)
+    cases_path = os.path.join(d, "cases.json")
+    with open(cases_path, "w") as f:
+        json.dump(cases, f)
+    names = env_names(REPO)
+    chosen = sorted(names)
+    cap = 4 if ctx.quick else 12
+    if len(chosen) > cap:
+        chosen = sorted(rng.sample(chosen, cap))
+    so_path = getattr(sys.modules.get("toasty._libtoasty"), "__file__", "") or ""
+    confs = [("%s=1" % nm, {nm: "1"}, False) for nm in chosen] + [("toasty._libtoasty cannot be imported", {}, True)]
+    kids = []
+    for i, (label, envadd, noext) in enumerate(confs):
+        e = dict(os.environ)
+        e.update(envadd)
+        base = os.path.join(d, "cfg%d" % i)
+        p = subprocess.Popen([sys.executable, script, REPO, so_path, "1" if noext else "0", base + ".npy", base + ".json", cases_path],
+                             env=e, stdout=subprocess.PIPE, stderr=subprocess.STDOUT, cwd=d)
+        kids.append((label, noext, p, base))
+    return {"cases": cases, "kids": kids, "names": names}
+
+
+def judge_env_children(ctx, launched, tabs, worst):
+    cases = launched["cases"]
+    psis = {"astronomical": toastlat.psi_for(tabs[0], "astronomical"), "planetary": toastlat.psi_for(tabs[0], "planetary")}
+    # expected blocks, case by case and npix by npix: TLC's emitted grid where a table with that K holds the tile, else the
+    # theorem's right-hand side through psi
+    expected = []
+    from_tlc = 0
+    for (csname, n, x, y) in cases:
+        psi = psis[csname]
+        for k in range(1, 9):
+            idx = np.array(grid_index(2 ** k))
+            g = None
+            for t in tabs:
+                if t.K == k:
+                    for e in t.sub:
+                        if e["pos"] == (n, x, y):
+                            g = np.array([[psi.vec(p[0], p[1], t.R) for p in row] for row in e["grid"]])
+                            from_tlc += 1
+            if g is None:
+                g = psi.grid(n, x, y, k)
+            expected.append(g[np.ix_(idx, idx)])
+    summary = {}
+    for label, noext, p, base in launched["kids"]:
+        try:
+            outtxt, _ = p.communicate(timeout=900)
+        except subprocess.TimeoutExpired:
+            p.kill()
+            outtxt, _ = p.communicate()
+            ctx.drift("environment configuration '%s': the child interpreter did not finish" % label)
+            continue
+        if not os.path.exists(base + ".json"):
+            ctx.drift("environment configuration '%s': the child interpreter ended (status %s) without a result: %s" % (label, p.returncode, (outtxt or b"")[-300:]))
+            continue
+        st = json.load(open(base + ".json"))
+        summary[label] = {"status": st["status"], "subsample": st.get("impl"), "detail": st.get("detail")}
+        if st["status"] == "import-error":
+            if not noext:
+                ctx.drift("environment configuration '%s': the library does not import: %s" % (label, st.get("detail")))
+            continue      # without its extension the library refuses to load: nothing is reported, nothing to judge
+        if st["status"] != "ok":
+            ctx.machinery("environment configuration '%s': child reports %s" % (label, st["status"]))
+        if st["errors"]:
+            ctx.drift("environment configuration '%s': %d grid requests raised, e.g. %s" % (label, len(st["errors"]), st["errors"][0]))
+        vec = np.load(base + ".npy")
+        off = 0
+        bi = 0
+        first = None
+        nbad = 0
+        for ci, (csname, n, x, y) in enumerate(cases):
+            for k in range(1, 9):
+                m = len(grid_index(2 ** k))
+                lon, lat = vec[off:off + m * m].reshape(m, m), vec[off + m * m:off + 2 * m * m].reshape(m, m)
+                off += 2 * m * m
+                extra = None
+                if k == 8:
+                    extra = vec[off:off + 4]
+                    off += 4
+                exp = expected[bi]
+                bi += 1
+                if np.isnan(lon).any() or np.isnan(lat).any():
+                    continue
+                ctx.count()
+                ctx.distinct(("env", label, csname, (n, x, y), 2 ** k))
+                err = float(np.abs(lattice.lonlat_to_vec(lon, lat) - exp).max())
+                worst["environment"] = max(worst["environment"], err)
+                if err > TOL:
+                    nbad += 1
+                    if first is None:
+                        first = (csname, (n, x, y), 2 ** k, err)
+                elif extra is not None and not np.isnan(extra).any():
+                    exc = max(float(extra[1] - extra[3]), float(extra[2] - extra[0]), 0.0)
+                    if exc > 1e-12:
+                        ctx.violation("C05:environment:latitude-range", "with %s, tile %s [%s]: pixel latitudes leave the corners' latitude range by %.2e rad" % (label, (n, x, y), csname, exc),
+                                      {"configuration": label, "pos": (n, x, y), "cs": csname})
+        if off != len(vec):
+            ctx.machinery("environment configuration '%s': result vector has %d values, layout expects %d" % (label, len(vec), off))
+        summary[label]["grids_off"] = nbad
+        if first is not None:
+            csname, pos, npix, err = first
+            ctx.violation(KEY_ENV, "with %s (subsample = %s): %d of the %d grids requested are not the centres of the deeper tiles, e.g. tile %s [%s, %s diagonal], npix = %d: up to %.2e away "
+                          "from the centres of the level-%d tiles" % (label, st.get("impl"), nbad, bi, pos, csname, "increasing" if lattice.inc(*pos) else "decreasing", npix, err, pos[0] + int(np.log2(npix))),
+                          {"configuration": label, "pos": pos, "cs": csname, "npix": npix})
+    ctx.note("environment", {"variables_read_by_the_library": launched["names"], "configurations": summary, "cases": len(cases), "blocks_expected_from_tlc_tables": from_tlc})
 
 
 def run(ctx):
@@ -26,8 +670,11 @@ def run(ctx):
     ctx.rule = ("tiles x pixels: TLC emits the K = 1..3 sub-sample grids of every tile of the bounded lattice; all 65536 pixels of every tile to depth 2 plus seeded deeper "
                 "tiles are compared with the spec's right-hand side; distinct = distinct (coordinate system, tile, npix); every case is non-trivial")
     runs = [(5, 3, 1), (6, 2, 3)] if q else [(5, 3, 1), (6, 3, 2), (7, 3, 3)]
+    # the new routes draw from their own generator, so that the tiles and pixels sampled below stay what they were
+    rng2 = random.Random(ctx.seed * 7919 + 5)
+    children = launch_env_children(ctx, rng2)
     tabs = [toastlat.run_tlc(ctx, R, D, K) for (R, D, K) in runs]
-    worst = {"small": 0.0, "grid256": 0.0, "deeper-tile": 0.0, "lat-excess": 0.0, "outside": 0.0}
+    worst = {"small": 0.0, "grid256": 0.0, "deeper-tile": 0.0, "lat-excess": 0.0, "outside": 0.0, "arrived": 0.0, "environment": 0.0}
     cons = toastlat.library_consumers()
     for csname, cs in toastlat.coordsystems():
         psi = toastlat.psi_for(tabs[0], csname)
@@ -128,6 +775,12 @@ def run(ctx):
             worst["outside"] = max(worst["outside"], -out)
             if out < -1e-12:
                 ctx.violation("C05:inside-tile", "tile %s [%s]: a pixel centre lies %.2e outside the tile's edges" % ((n, x, y), csname, -out), {"pos": (n, x, y), "cs": csname})
+    # ---- the tile that arrives at a worker of a parallel leaf visit of a filtered pyramid
+    from toasty.pyramid import Pyramid
+    mods = {"toast": toast, "subsample": getattr(toast, "subsample", subsample), "Pyramid": Pyramid, "Pos": Pos}
+    check_arrivals(ctx, mods, tabs[0], rng2, worst, cons)
+    # ---- the process environment
+    judge_env_children(ctx, children, tabs, worst)
     ctx.note("worst_deviation", worst)
     e = tabs[0].sub[len(tabs[0].sub) // 2]
     ctx.sample({"tile": list(e["pos"]), "K": tabs[0].K, "R": tabs[0].R, "grid_lattice_points": e["grid"]})
